@@ -144,6 +144,85 @@ def check_merge_stored(chk, prog):
                           "hash entry is not re-pointed at the row written from the merge output", c.loc, **detail)
 
 
+def _returned_flag_locals(f):
+    """bool locals whose value is (a component of) the function's return value, closed under plain copies"""
+    out = set()
+    for (bb, idx, dproj, kind, payload) in f.defs.get(0, []):
+        if kind != "a":
+            continue
+        ops = []
+        if payload[0] == "use":
+            ops = [payload[1]]
+        elif payload[0] == "agg":
+            ops = payload[4]
+        for o in ops:
+            if o[0] in ("c", "m") and not o[1][1] and f.locals[o[1][0]] == "bool":
+                out.add(o[1][0])
+    grew = True
+    while grew:
+        grew = False
+        for l in list(out):
+            for (bb, idx, dproj, kind, payload) in f.defs.get(l, []):
+                if kind == "a" and not dproj and payload[0] == "use" and payload[1][0] in ("c", "m") and not payload[1][1][1]:
+                    src = payload[1][1][0]
+                    if src not in out and f.locals[src] == "bool":
+                        out.add(src)
+                        grew = True
+    return out
+
+
+def check_change_reported(chk, prog, R=None):
+    R = R or chk.rule("R-CHANGE-REPORTED", "in the table insert functions (serial_insert, the per-shard closure of parallel_insert) the returned `changed` flag is set to true on the path "
+                      "where a merge function reported a change and on the path where a new key is inserted: Database::merge_all's result - the signal every schedule "
+                      "combinator stops on - must not miss a replaced value")
+    n = 0
+    for f, c in merge_sites(prog):
+        if f.kind == "closure" and all(a[0] == "param" and a[1] >= 2 for a in f.origins(_out_operand(f, c) or ["k", "", ""])):
+            continue  # forwarder
+        flags = _returned_flag_locals(f)
+        if not flags:
+            continue  # StagedOutputs::insert returns nothing: its rows are accounted for by the flush
+        n += 1
+        key = f"{role_key(f)}:merge-site#{'closure' if f.kind == 'closure' else 'fn'}:reports-change"
+        ok = False
+        for sw, tr, fl in result_branches(f, c):
+            reg = region_of_branch(f, sw, tr) | {tr}
+            for i, j, s in f.assigns():
+                if i in reg and s[1][0] in flags and not s[1][1] and s[2][0] == "use" and s[2][1][0] == "k" and s[2][1][1] == "true":
+                    ok = True
+        chk.judge(ok, R, key, "a merge that changed the stored value sets the returned `changed` flag",
+                  "the merge function reported a change but the insert does not flag the table as changed: merge_all()/RuleSetReport.changed stay false, so run/repeat/saturate stop "
+                  "although the database is still changing", c.loc)
+    chk.floor(R, n, 4, "merge sites in insert functions that return a change flag")
+    # new keys: every hash-entry creation in a flag-returning insert body is accompanied (dominated or followed in the same block region) by flag := true
+    for f, c in merge_sites(prog):
+        flags = _returned_flag_locals(f)
+        if not flags:
+            continue
+        for x in f.calls:
+            sh = x.p.rsplit("::", 1)[-1]
+            if x.p.startswith("hashbrown::") and (sh in ("insert_unique",) or (sh == "insert" and "VacantEntry" in x.p)):
+                gs = {g["at"] for g in guards(f, x.bb)}
+                okn = False
+                for i, j, s in f.assigns():
+                    if s[1][0] in flags and not s[1][1] and s[2][0] == "use" and s[2][1][0] == "k" and s[2][1][1] == "true":
+                        # the assignment happens whenever the insertion happens: same must-guards or dominates / post-dominates it
+                        if f.dominates(i, x.bb) and {g["at"] for g in guards(f, i)} <= gs or i == x.bb or (x.bb in f.dom.get(i, ()) and f.postdominates(i, x.bb)):
+                            okn = True
+                chk.judge(okn, R, f"{role_key(f)}:new-key{'@closure' if f.kind == 'closure' else ''}:reports-change", "inserting a new key sets the returned `changed` flag",
+                          "a new key is inserted without flagging the table as changed", x.loc)
+        break_outer = False
+
+
+def _out_operand(f, c):
+    tup = c.args[1] if len(c.args) > 1 else None
+    if tup and tup[0] in ("c", "m"):
+        d = f.single_def(tup[1][0])
+        if d and d[3] == "a" and d[4][0] == "agg":
+            return d[4][4][-1]
+    return None
+
+
 def check_insert_after_probe(chk, prog):
     R = chk.rule("R-INSERT-AFTER-PROBE", "in every function body that contains a table merge call site, a new key->row hash entry is created only after a lookup of that key "
                  "missed: through the Vacant arm of HashTable::entry, or by insert_unique control dependent on a None result of the key lookup")
@@ -364,6 +443,7 @@ def run(chk, prog, tier):
     ]
     check_merge_stored(chk, prog)
     check_insert_after_probe(chk, prog)
+    check_change_reported(chk, prog)
     check_merge_args(chk, prog)
     check_merge_callback(chk, prog)
     check_nomerge(chk, prog)
